@@ -135,20 +135,22 @@ impl FromStr for HandRangeToken {
 
     fn from_str(s: &str) -> Result<Self, Self::Err> {
         let double_closed_pocket_pair_range_regex =
-            Regex::new(r"^[AKQJT98765432]{2}-[AKQJT98765432]{2}(:[01](\.[0-9]+)?)?$").unwrap();
-        let double_rank_pair_range_regex =
-            Regex::new(r"^[AKQJT98765432]{2}[so]-[AKQJT98765432]{2}[so](:[01](\.[0-9]+)?)?$")
+            Regex::new(r"^[AKQJT98765432]{2}-[AKQJT98765432]{2}(:(0(\.[0-9]+)?|1(\.0+)?))?$")
                 .unwrap();
+        let double_rank_pair_range_regex = Regex::new(
+            r"^[AKQJT98765432]{2}[so]-[AKQJT98765432]{2}[so](:(0(\.[0-9]+)?|1(\.0+)?))?$",
+        )
+        .unwrap();
         let bottom_closed_pocket_pair_range_regex =
-            Regex::new(r"^[AKQJT98765432]{2}\+(:[01](\.[0-9]+)?)?$").unwrap();
+            Regex::new(r"^[AKQJT98765432]{2}\+(:(0(\.[0-9]+)?|1(\.0+)?))?$").unwrap();
         let bottom_closed_rank_pair_range_regex =
-            Regex::new(r"^[AKQJT98765432]{2}[so]\+(:[01](\.[0-9]+)?)?$").unwrap();
+            Regex::new(r"^[AKQJT98765432]{2}[so]\+(:(0(\.[0-9]+)?|1(\.0+)?))?$").unwrap();
         let single_pocket_pair_regex =
-            Regex::new(r"^[AKQJT98765432]{2}(:[01](\.[0-9]+)?)?$").unwrap();
+            Regex::new(r"^[AKQJT98765432]{2}(:(0(\.[0-9]+)?|1(\.0+)?))?$").unwrap();
         let single_rank_pair_regex =
-            Regex::new(r"^[AKQJT98765432]{2}[so](:[01](\.[0-9]+)?)?$").unwrap();
+            Regex::new(r"^[AKQJT98765432]{2}[so](:(0(\.[0-9]+)?|1(\.0+)?))?$").unwrap();
         let single_card_pair_regex =
-            Regex::new(r"^([AKQJT98765432][shdc]){2}(:[01](\.[0-9]+)?)?$").unwrap();
+            Regex::new(r"^([AKQJT98765432][shdc]){2}(:(0(\.[0-9]+)?|1(\.0+)?))?$").unwrap();
 
         if double_closed_pocket_pair_range_regex.is_match(s)
             && s[0..1] == s[1..2]
